@@ -247,7 +247,13 @@ func ConnectAndAuthenticateWithConfig(ctx context.Context, config *ClientConfig)
 
 		// Perform authentication handshake
 		if config.Security != nil {
-			auth := security.NewAuthenticator(config.Security, client.stream)
+			// The handshake writes into the config it is given (NewAuthenticator
+			// stores this connection's ephemeral ECDH public key there), and one
+			// ClientConfig.Security is commonly shared by many concurrent
+			// connections. Give every attempt a private shallow copy, as the server
+			// and CCB paths do; the pointer fields (credentials) are only read.
+			secConfig := *config.Security
+			auth := security.NewAuthenticator(&secConfig, client.stream)
 			negotiation, err := auth.ClientHandshake(ctx)
 
 			// Check if this is a session resumption error
